@@ -10,7 +10,7 @@ namespace AslModel.C05
 open AslModel.PFile AslModel.P2Bin
 
 /-- the model as the code is today -/
-def code : Quirks := ⟨false, false, false, false⟩
+def code : Quirks := ⟨false, false, false, false, false⟩
 
 /-- Table obligation: for every lane name of the manual the triple `(SizeDiv, ANDMask, ANDEq)` that the
 current `p2bin.c` selects (regenerated every run) is the expected one. -/
